@@ -109,6 +109,7 @@ type FuncVerifier struct {
 	noAllocAssume                                bool
 	oldBound                                     map[types.Object]Term
 	curClause                                    *Clause
+	noSplit                                      bool
 	inClauseHere                                 bool
 	heapSorts                                    map[string]*Sort // heap name -> reference sort
 	pureUsed, inlined, trustedUsed, contractUsed map[string]bool
@@ -126,9 +127,11 @@ type heapFormal struct {
 }
 
 type pureDef struct {
-	names []string // one SMT function per result
-	sorts []*Sort
-	heaps []heapFormal
+	formals []string // formal parameter names (including heap formals)
+	bodies  []string // SMT bodies, one per result
+	names   []string // one SMT function per result
+	sorts   []*Sort
+	heaps   []heapFormal
 }
 
 func (fv *FuncVerifier) frame() *frame     { return fv.frames[len(fv.frames)-1] }
@@ -163,6 +166,15 @@ func (fv *FuncVerifier) lookupTParam(tp *types.TypeParam) (types.Type, bool) {
 		if m := fv.frames[i].tsubst; m != nil {
 			if r, ok := m[tp]; ok {
 				return r, true
+			}
+			// specification wrappers re-declare the type parameters of the function they
+			// belong to under the same names: resolve by name in the nearest instantiation
+			for k, r := range m {
+				if k.Obj().Name() == tp.Obj().Name() && k != tp {
+					if fv.frames[len(fv.frames)-1].fd != nil && strings.HasPrefix(fv.frames[len(fv.frames)-1].fd.decl.Name.Name, "__") {
+						return r, true
+					}
+				}
 			}
 		}
 	}
@@ -277,6 +289,9 @@ func (fv *FuncVerifier) nilMapAxiom(heapName string, h Term) {
 	cs := h.Sort.Elem
 	fv.u.decls = append(fv.u.decls, fmt.Sprintf("(assert (and (= (%s (select %s 0)) ((as const %s) false)) (= (%s (select %s 0)) 0)))",
 		cs.Fields[0].Accessor, h.S, cs.Fields[0].Sort.Name, cs.Fields[2].Accessor, h.S))
+	// len(m) of every map in this heap is a cardinality: non-negative, zero exactly for the empty key set
+	fv.u.decls = append(fv.u.decls, fmt.Sprintf("(assert (forall ((r!m Int)) (! (and (>= (%s (select %s r!m)) 0) (= (= (%s (select %s r!m)) 0) (forall ((k!m %s)) (not (select (%s (select %s r!m)) k!m))))) :pattern ((select %s r!m)))))",
+		cs.Fields[2].Accessor, h.S, cs.Fields[2].Accessor, h.S, cs.Key.Name, cs.Fields[0].Accessor, h.S, h.S))
 }
 
 func (fv *FuncVerifier) setHeap(st *State, ref *Sort, h Term) {
@@ -305,6 +320,16 @@ func (fv *FuncVerifier) oblige(st *State, kind, label string, goal Term, p token
 	}
 	if goal.S == "true" {
 		return
+	}
+	if !fv.noSplit {
+		if parts := fv.splitGoal(goal, 0); len(parts) > 1 && len(parts) <= 12 {
+			fv.noSplit = true
+			for k, pt := range parts {
+				fv.oblige(st, kind, fmt.Sprintf("%s.%d", label, k), pt, p, human)
+			}
+			fv.noSplit = false
+			return
+		}
 	}
 	name := fmt.Sprintf("%s#%s", fv.name, kind)
 	if label != "" {
@@ -340,6 +365,132 @@ func (fv *FuncVerifier) oblige(st *State, kind, label string, goal Term, p token
 		o.replay = ri
 	}
 	fv.obls = append(fv.obls, o)
+}
+
+// splitGoal breaks a goal into conjuncts: through (and ...), through the right-hand side
+// of an implication, under a universal quantifier, and through applications of
+// specification functions whose body is a conjunction. Smaller queries are more stable.
+func (fv *FuncVerifier) splitGoal(goal Term, depth int) []Term {
+	s := strings.TrimSpace(goal.S)
+	if depth > 6 {
+		return []Term{goal}
+	}
+	switch {
+	case strings.HasPrefix(s, "(and "):
+		var out []Term
+		rest := s[5 : len(s)-1]
+		for strings.TrimSpace(rest) != "" {
+			a, r, ok := splitFirstSexpr(rest)
+			if !ok {
+				return []Term{goal}
+			}
+			out = append(out, fv.splitGoal(Term{a, sortBool}, depth+1)...)
+			rest = r
+		}
+		return out
+	case strings.HasPrefix(s, "(=> "):
+		a, rest, ok := splitFirstSexpr(s[4 : len(s)-1])
+		if !ok {
+			return []Term{goal}
+		}
+		parts := fv.splitGoal(Term{strings.TrimSpace(rest), sortBool}, depth+1)
+		if len(parts) <= 1 {
+			return []Term{goal}
+		}
+		var out []Term
+		for _, pt := range parts {
+			out = append(out, Term{"(=> " + a + " " + pt.S + ")", sortBool})
+		}
+		return out
+	case strings.HasPrefix(s, "(forall ("):
+		binders, rest, ok := splitFirstSexpr(s[len("(forall ") : len(s)-1])
+		if !ok {
+			return []Term{goal}
+		}
+		body := strings.TrimSpace(rest)
+		if strings.HasPrefix(body, "(! ") {
+			return []Term{goal}
+		}
+		parts := fv.splitGoal(Term{body, sortBool}, depth+1)
+		if len(parts) <= 1 {
+			return []Term{goal}
+		}
+		var out []Term
+		for _, pt := range parts {
+			out = append(out, Term{"(forall " + binders + " " + pt.S + ")", sortBool})
+		}
+		return out
+	case strings.HasPrefix(s, "(f_"):
+		// application of a specification/pure function: unfold its body
+		k := strings.IndexAny(s, " )")
+		name := s[1:k]
+		for _, pd := range fv.pureDefs {
+			if pd == nil || len(pd.names) != 1 || pd.names[0] != name || len(pd.bodies) != 1 || pd.sorts[0].Kind != KBool {
+				continue
+			}
+			var args []string
+			rest := s[k : len(s)-1]
+			for strings.TrimSpace(rest) != "" {
+				a, r, ok := splitFirstSexpr(rest)
+				if !ok {
+					return []Term{goal}
+				}
+				args = append(args, a)
+				rest = r
+			}
+			if len(args) != len(pd.formals) {
+				return []Term{goal}
+			}
+			body := substFormals(pd.bodies[0], pd.formals, args)
+			parts := fv.splitGoal(Term{body, sortBool}, depth+1)
+			if len(parts) <= 1 {
+				return []Term{goal}
+			}
+			return parts
+		}
+	}
+	return []Term{goal}
+}
+
+// substFormals replaces whole-symbol occurrences of the formals by the arguments.
+func substFormals(body string, formals, args []string) string {
+	m := map[string]string{}
+	for i, f := range formals {
+		m[f] = args[i]
+	}
+	var sb strings.Builder
+	i := 0
+	isSym := func(c byte) bool {
+		return c == '_' || c == '!' || c == '.' || c == ':' || c >= '0' && c <= '9' || c >= 'a' && c <= 'z' || c >= 'A' && c <= 'Z'
+	}
+	for i < len(body) {
+		if body[i] == '"' {
+			j := i + 1
+			for j < len(body) && body[j] != '"' {
+				j++
+			}
+			sb.WriteString(body[i : j+1])
+			i = j + 1
+			continue
+		}
+		if isSym(body[i]) {
+			j := i
+			for j < len(body) && isSym(body[j]) {
+				j++
+			}
+			tok := body[i:j]
+			if r, ok := m[tok]; ok {
+				sb.WriteString(r)
+			} else {
+				sb.WriteString(tok)
+			}
+			i = j
+			continue
+		}
+		sb.WriteByte(body[i])
+		i++
+	}
+	return sb.String()
 }
 
 // skolemizeGoal: a goal (forall (x..) body) is proved for fresh constants x.. (the
